@@ -70,7 +70,7 @@ def judge_tree(op, impl, model, spec):
 
 def at_model_op(op):
     w = op.split(" ")
-    return "display " + w[2][2 * int(w[1]):]
+    return "display " + (w[2][2 * int(w[1]):] or "-")
 
 
 def judge_at(op, impl, model, spec):
@@ -179,6 +179,8 @@ def streams(rng, tier):
         pre = rng.choice([b"\x18\x2a", b"\x00", b"\x82\x01\x02", b"\xff\xff\x1c", b"\x9f", gen.rand_bytes(rng, rng.randint(1, 5))])
         pops.append(f"displayat {len(pre)} {(pre + e).hex()}")
         pops.append(f"displayat 0 {e.hex()}")
+        if rng.random() < 0.05:
+            pops.append(f"displayat {len(e) + rng.choice([0, 1, 2, 50])} {e.hex()}")      # at and beyond the end: nothing to show, no panic
     s4 = Stream("display-from-position", "hcore", pops, model_ops=[at_model_op(o) for o in pops], judge=judge_at,
                 rule="displayat: Display of Decoder::tokens() taken at position p of a buffer == display(&buffer[p..]) == the model's display of "
                      "that suffix, for well-formed items behind arbitrary leading bytes",
